@@ -7,6 +7,25 @@
        -> per segment "<L|D>/<pt>,<pt>,..." ("." when nothing was delivered),
           then "live:<buf>:<ctr>" or "dead" *)
 open Drv
+(* faster hex codecs than the shared ones (streams here are megabytes): table driven *)
+let byte_tab = Array.init 256 n_of_int
+let nib c = match c with
+  | '0'..'9' -> Char.code c - 48 | 'a'..'f' -> Char.code c - 87 | 'A'..'F' -> Char.code c - 55
+  | _ -> failwith "hex"
+let bytes_of_hex (h : string) =
+  if h = "-" then [] else begin
+    let n = Stdlib.String.length h / 2 in
+    let r = ref [] in
+    for i = n - 1 downto 0 do
+      r := byte_tab.(nib h.[2 * i] * 16 + nib h.[2 * i + 1]) :: !r
+    done; !r end
+let hexdig = "0123456789abcdef"
+let hex_of_bytes l =
+  if l = [] then "-" else begin
+    let b = Buffer.create 64 in
+    Stdlib.List.iter (fun x -> let v = int_of_n x in
+                       Buffer.add_char b hexdig.[(v lsr 4) land 15]; Buffer.add_char b hexdig.[v land 15]) l;
+    Buffer.contents b end
 let frame_str (f : Frame.sframe) =
   Stdlib.String.concat ":" [hex_of_bytes f.Frame.sf_prefix; hex_of_bytes f.Frame.sf_nonce;
                             dec_of_n f.Frame.sf_ctr; hex_of_bytes f.Frame.sf_aad; hex_of_bytes f.Frame.sf_chunk]
